@@ -8,6 +8,8 @@
        rp_fault   0, or the reason the model left its domain (RepairRaw.RpF_ constants)
        rp_uninit_ppl  the C wrote uninitialised stack bytes into a payload_prev_length field (the model writes 0)
        rp_did     whether the repair branch was entered
+       rp_end_off where the open wrote its END chunk header (0: none); the C does not seek to the end of the
+                  file before jls_core_wr_end, so this need not be the end of the file
    is meant to be EXACTLY what the harness observes (tools/props/RP.py compares rc, log and file).
 
    C functions modelled, in the C's control flow (read side in RepairRaw.v):
@@ -71,6 +73,9 @@ Definition rp_w_set_c (w : rp_w) (c : rp_rd) : rp_w := {| rp_c := c; rp_log := r
 Definition rp_w_set_uninit (w : rp_w) : rp_w := {| rp_c := rp_c w; rp_log := rp_log w; rp_uninit := true |}.
 Definition rp_w0 (c : rp_rd) : rp_w := {| rp_c := c; rp_log := []; rp_uninit := false |}.
 Definition rp_w_fault (w : rp_w) (code : N) : rp_w := rp_w_set_io w (rp_io_fault (rp_w_io w) code).
+(* the C's own "appending" test of jls_raw_wr_header: a fresh header written while it fails keeps the
+   caller's uninitialised payload_prev_length *)
+Definition rp_w_inplace (w : rp_w) : bool := rp_fpos (rp_r (rp_w_io w)) <? rp_fend (rp_r (rp_w_io w)).
 
 (* ---- bridge to the writer model ---- *)
 Definition rp_ghost (s : rp_io) (off : N) : list (N * fm_chunk_header) :=
@@ -399,7 +404,7 @@ Fixpoint rp_fsr_data (fuel : nat) (d : sigdef) (w : rp_w) (t : wm_track) (f : wm
             let samples := rp_unpack bits ec (rp_skip SIZEOF_payload_header p) in
             let '(w3, t3, f3) := rp_unfx w2 (wm_fsr_summary1 summ1 summN d offset samples (rp_fx w2 t f1)) in
             (* no jls_raw_seek_end before this call: a flush writes its chunks where the raw stands *)
-            let inplace := rp_offset (rp_r (rp_w_io w2)) <? rp_fend (rp_r (rp_w_io w2)) in
+            let inplace := rp_w_inplace w2 in
             let flushed := negb (Nat.eqb (length (rp_log w3)) (length (rp_log w2))) in
             let w3a := if inplace && flushed then rp_w_set_uninit w3 else w3 in
             rp_fsr_data fu d w3a t3 f3 next false
@@ -443,10 +448,13 @@ Fixpoint rp_repair_fsr_all (ids : list N) (w : rp_w) : rp_w * N :=
   end.
 
 (* ================= reader.c ================= *)
-Record rp_result := { rp_rc : N; rp_events : list wm_entry; rp_after : list N; rp_fault : N; rp_did : bool; rp_uninit_ppl : bool }.
-Definition rp_res (rc : N) (w : rp_w) (did : bool) : rp_result :=
+(* rp_end_off: the offset at which the open wrote its END chunk header (0 = it wrote none) *)
+Record rp_result := { rp_rc : N; rp_events : list wm_entry; rp_after : list N; rp_fault : N; rp_did : bool; rp_uninit_ppl : bool;
+                      rp_end_off : N }.
+Definition rp_res_end (rc : N) (w : rp_w) (did : bool) (end_off : N) : rp_result :=
   {| rp_rc := rc; rp_events := wm_rev (rp_log w); rp_after := rp_file (rp_w_io w); rp_fault := rp_flt (rp_w_io w); rp_did := did;
-     rp_uninit_ppl := rp_uninit w |}.
+     rp_uninit_ppl := rp_uninit w; rp_end_off := end_off |}.
+Definition rp_res (rc : N) (w : rp_w) (did : bool) : rp_result := rp_res_end rc w did 0.
 
 (* jls_rd_close on an error path while the file is open for append: jls_fsr_close of every track_fsr that is
    still open, then jls_raw_close = the file header with the current size *)
@@ -456,7 +464,9 @@ Definition rp_exit_fsr (w : rp_w) (id : N) : rp_w :=
   | None => w
   | Some f =>
     let '(_, t) := rp_sg_track g JLS_TRACK_TYPE_FSR in
-    let '(w1, t1, _) := rp_unfx w (wm_fsr_close summ1 summN (rp_sg_d g) (rp_fx w t f)) in
+    let '(w1a, t1, _) := rp_unfx w (wm_fsr_close summ1 summN (rp_sg_d g) (rp_fx w t f)) in
+    (* no jls_raw_seek_end on this path: chunks are written where the raw stands *)
+    let w1 := if rp_w_inplace w && negb (Nat.eqb (length (rp_log w1a)) (length (rp_log w))) then rp_w_set_uninit w1a else w1a in
     let g1 := rp_get_sig (rp_c w1) id in
     rp_w_set_c w1 (rp_put_sig (rp_c w1) id
       (rp_sg_set_fsr (rp_sg_set_tk g1 (wm_upd (N.to_nat JLS_TRACK_TYPE_FSR) (true, t1) (rp_sg_tk g1))) None))
@@ -466,9 +476,9 @@ Definition rp_exit (w : rp_w) (rc : N) : rp_result :=
   rp_res rc (rp_with_raw w1 wm_raw_close) true.
 
 (* the end of jls_rd_open: (jls_fsr_open of every FSR signal,) jls_core_scan_fsr_sample_id *)
-Definition rp_finish (w : rp_w) (did : bool) : rp_result :=
+Definition rp_finish (w : rp_w) (did : bool) (end_off : N) : rp_result :=
   let '(c1, rc) := rp_scan_fsr_sample_id (rp_c w) in
-  rp_res rc (rp_w_set_c w c1) did.
+  rp_res_end rc (rp_w_set_c w c1) did end_off.
 
 (* the scan phase: jls_raw_open r, scan_initial, scan_sources, scan_signals, rd_chunk_end.
    inl = jls_rd_open returns this code without having written anything *)
@@ -525,20 +535,24 @@ Definition rp_repair (c : rp_rd) : rp_result :=
             let '(w9, rc9) := rp_repair_fsr_all rp_signal_ids w8 in
             if negb (rc9 =? 0) then rp_exit w9 rc9
             else
-              let b9 := rp_wm_base w9 0 in
+              (* jls_core_wr_end: no jls_raw_seek_end before it.  The END header goes to raw->offset, which is the
+                 end of the file only if the last FSR signal's repair left it there *)
+              let w9a := if rp_w_inplace w9 then rp_w_set_uninit w9 else w9 in
+              let b9 := rp_wm_base w9a 0 in
+              let end_off := wm_offset (wm_b_raw b9) in
               let b10 := wm_core_wr_end b9 in
-              let w10 := rp_commit w9 (wm_b_set_raw b10 (wm_raw_close (wm_b_raw b10))) in
+              let w10 := rp_commit w9a (wm_b_set_raw b10 (wm_raw_close (wm_b_raw b10))) in
               let '(s11, rc11) := rp_raw_open (rp_w_io w10) false in
               let w11 := rp_w_set_io w10 s11 in
-              if negb (rc11 =? 0) then rp_res rc11 w11 true
-              else rp_finish w11 true.
+              if negb (rc11 =? 0) then rp_res_end rc11 w11 true end_off
+              else rp_finish w11 true end_off.
 
 Definition rp_open (f : list N) : rp_result :=
   match rp_scan f with
   | inl (c, rc) => rp_res rc (rp_w0 c) false
   | inr c =>
     if fm_tag (wm_ck_hdr (rp_cur (rp_io_ c))) =? JLS_TAG_END
-    then rp_finish (rp_w0 c) false
+    then rp_finish (rp_w0 c) false 0
     else rp_repair c
   end.
 
